@@ -185,7 +185,8 @@ pub fn verif_encrypt_chunks<T: Read, U: Write>(
     aad: &[u8],
     chunk_size: u32,
 ) -> Result<(), EncryptError> {
-    encrypt_chunks(plaintext, ciphertext, key, aad, chunk_size)
+    // `.map(|_| ())`: keeps compiling if the private loop starts returning a value (e.g. a byte count)
+    encrypt_chunks(plaintext, ciphertext, key, aad, chunk_size).map(|_| ())
 }
 
 fn read_err(err: std::io::Error) -> EncryptError {
